@@ -172,9 +172,15 @@ func parse(api, text string) (c *conf.Conf, class, errs string) {
 	}()
 	c = conf.New()
 	var err error
-	if api == "bytes" {
+	switch api {
+	case "bytes":
 		err = c.InitFromBytes([]byte(text))
-	} else {
+	case "file": // the way tars/application.go reads the server configuration
+		var nc *conf.Conf
+		if nc, err = conf.NewConf(scratchFile); err == nil {
+			c = nc
+		}
+	default:
 		err = c.InitFromString(text)
 	}
 	if err != nil {
@@ -182,6 +188,8 @@ func parse(api, text string) (c *conf.Conf, class, errs string) {
 	}
 	return c, "ok", ""
 }
+
+var scratchFile string
 
 func sorted(s []string) []string {
 	out := append(make([]string, 0, len(s)), s...)
@@ -304,6 +312,8 @@ func cmdDocs(args []string) error {
 	if err != nil {
 		return err
 	}
+	scratchFile = *out + ".scratch.conf"
+	defer os.Remove(scratchFile)
 	sc := bufio.NewScanner(f)
 	sc.Buffer(make([]byte, 1<<20), 1<<28)
 	id := 0
@@ -326,7 +336,7 @@ func cmdDocs(args []string) error {
 				return fmt.Errorf("doc %d: %v", id, err)
 			}
 			layout(rec.Lines, r)
-			rec.API = []string{"string", "bytes"}[r.Intn(2)]
+			rec.API = []string{"string", "bytes", "string", "bytes", "file"}[r.Intn(5)]
 		}
 		rec.Text = render(rec.Lines)
 		// what to ask: every path over the names written in the document, as deep as there are opens; every key written
@@ -360,6 +370,11 @@ func cmdDocs(args []string) error {
 		}
 		if rec.Depth > 4 {
 			rec.Depth = 4
+		}
+		if rec.API == "file" { // written here: an I/O problem of the harness must never look like an outcome of the parser
+			if err := os.WriteFile(scratchFile, []byte(rec.Text), 0o600); err != nil {
+				return err
+			}
 		}
 		c, class, errs := parse(rec.API, rec.Text)
 		rec.Class, rec.Err = class, errs
